@@ -523,7 +523,7 @@ def cmp_flt(op, a, b):
     return cmp_num(op, a, b)
 
 
-QUIRKS = ("sentinel", "undef_quantifier", "int_loop_body", "dbl_lt_undef", "pct_double")
+QUIRKS = ("sentinel", "undef_quantifier", "int_loop_body", "dbl_lt_undef", "pct_double", "range_wrap")
 
 
 class Eval:
@@ -833,6 +833,10 @@ class Eval:
                 if hi - lo > 64:
                     raise Budget()
                 items = list(range(lo, hi + 1))
+                if hi == I64MAX:
+                    self.events.add("range_wrap")
+                    if "range_wrap" in self.q:      # libyara: next++ wraps to INT64_MIN and the iteration goes on
+                        items += [I64MIN + j for j in range(48)]
             k = "loop-items:%s" % (len(items) if len(items) < 3 else "3+")
             self.stats[k] = self.stats.get(k, 0) + 1
             return self.loop(q, items, e[4], vars_, [cur] * len(items), e[6])
